@@ -25,8 +25,10 @@
 (* root-to-terminal path of the state graph is one (body, consumer)        *)
 (* program pair together with its execution, and pairs share prefixes.     *)
 (*                                                                         *)
-(* Values: the n-th co_yield yields n.  The i-th access of a generator     *)
-(* with argument passes 100+i.  The k-th pending await is completed with k.*)
+(* Values: the n-th co_yield yields content n ("yield"), or var*10+n when  *)
+(* the item is computed from / is the body's own variable ("yt","yv","ym", *)
+(* see YieldKinds and `pay`).  The i-th access of a generator with         *)
+(* argument passes 100+i.  The k-th pending await is completed with k.     *)
 (*                                                                         *)
 (* Threaded = FALSE: one thread; a blocking (sync) access is never made    *)
 (* to wait for an operation only this thread could complete, i.e. the body *)
